@@ -24,9 +24,9 @@ func alignWin(ep *Endpoint, w Win) Win {
 // reqWindow: the data window the request asks for, [F, T) or [F, T].
 func reqWindow(ep *Endpoint, w Win) (int64, int64) {
 	if ep.Instant {
-		return w.End - int64(ep.Lookback), w.End
+		return w.End - int64(ep.Lookback) - int64(ep.Offset), w.End - int64(ep.Offset)
 	}
-	return w.Start - int64(ep.Lookback), w.End
+	return w.Start - int64(ep.Lookback) - int64(ep.Offset), w.End - int64(ep.Offset)
 }
 
 // outerWindow: Window.tla's OuterLo / OuterHi / HiPoint: what a statement may read at most: the request window, for
@@ -40,22 +40,23 @@ func outerWindow(ep *Endpoint, w Win) (lo, hi, point int64) {
 		if ep.Bucket > 0 {
 			qs = append(qs, int64(ep.Bucket))
 		}
+		back, off := int64(ep.Lookback)+int64(ep.Offset), int64(ep.Offset)
 		for _, q := range qs {
-			// widen the un-shifted request ends (the lookback is subtracted after alignment)
-			s := f + int64(ep.Lookback)
-			if l := floorTo(s, q) - int64(ep.Lookback); l < lo {
+			// widen the un-shifted request ends (lookback and offset are subtracted after alignment)
+			s, e := f+back, t+off
+			if l := floorTo(s, q) - back; l < lo {
 				lo = l
 			}
-			if h := floorTo(t, q) + q; h > point {
+			if h := floorTo(e, q) + q - off; h > point {
 				point = h
 			}
 			if q != s15Ns {
 				// time.Truncate rounds relative to the zero time
 				tt := time.Unix(0, floorTo(s, secNs)).Truncate(time.Duration(q)).UnixNano()
-				if l := tt - int64(ep.Lookback); l < lo {
+				if l := tt - back; l < lo {
 					lo = l
 				}
-				if h := time.Unix(0, floorTo(t, secNs)).Truncate(time.Duration(q)).UnixNano() + q; h > point {
+				if h := time.Unix(0, floorTo(e, secNs)).Truncate(time.Duration(q)).UnixNano() + q - off; h > point {
 					point = h
 				}
 			}
@@ -109,6 +110,20 @@ func standardEntities(ep *Endpoint, w Win, extra []int64) []Entity {
 		{"outer-lo-1", lo - 1}, {"outer-lo", lo}, {"outer-hi", hi}, {"outer-hi+1", hi + 1},
 		{"far-before", f - 2*dayNs - 3600e9}, {"far-after", t + 2*dayNs + 3600e9},
 		{"day-before", (utcDay(f-m30Ns)-1)*dayNs + dayNs/2}, {"day-after", (utcDay(t)+1)*dayNs + dayNs/2}}
+	// rows just inside and just outside the two ends at millisecond distance, and at the starts of the seconds the
+	// ends lie in (where a bound that lost its fraction falls back to): only where they are distinct instants
+	seen := map[int64]bool{}
+	for _, r := range rts {
+		seen[r.ts] = true
+	}
+	for _, r := range []rt{{"from+1", f + 1}, {"from-1ms", f - 1e6}, {"from+1ms", f + 1e6}, {"to-1ms", t - 1e6}, {"to+1ms", t + 1e6},
+		{"from@sec", floorTo(f, secNs)}, {"from@sec-1", floorTo(f, secNs) - 1}, {"to@sec", floorTo(t, secNs)}, {"to@sec+1", floorTo(t, secNs) + 1},
+		{"to@sec+1s", floorTo(t, secNs) + secNs}} {
+		if !seen[r.ts] {
+			seen[r.ts] = true
+			rts = append(rts, r)
+		}
+	}
 	for i, e := range extra {
 		rts = append(rts, rt{fmt.Sprintf("extra%d", i), e})
 	}
@@ -459,23 +474,33 @@ func judge(ep *Endpoint, cluster string, w Win, wloc *time.Location, o *Obs) []F
 					}
 					continue
 				}
-				// misses: a row inside the window, of the right signal, indexed under the writer's day, not returned, and
-				// a date / type predicate of this statement rejects its index row
-				if !hasDate {
+				// misses: a row inside the window, of the right signal, not returned, and a predicate of this statement
+				// rejects it: a date / type predicate its index row (stored under the writer's day), a timestamp / type
+				// predicate a row whose stored timestamp lies STRICTLY inside the window (Window.tla TsMiss: whether the
+				// two end instants belong to the window is the API's convention)
+				if !hasDate && !hasTs {
 					continue
 				}
 				in := e.TsNs >= f && (e.TsNs < t || (ep.UpIncl && e.TsNs == t))
 				if !in || !(ep.Signal == 0 || e.Type == ep.Signal) || passed || vis[e.Marker] {
 					continue
 				}
+				sts := rowTs(table, e)
+				interior := hasTs && sts > f && sts < t
 				for _, c := range classes {
 					for _, b := range c.Bounds {
 						switch {
-						case b.Col == "date" && b.Op == "ge" && day < b.Day, b.Col == "date" && b.Op == "le" && day > b.Day:
+						case hasDate && b.Col == "date" && b.Op == "ge" && day < b.Day, hasDate && b.Col == "date" && b.Op == "le" && day > b.Day:
 							fs = append(fs, mk("miss", "date-bound", map[bool]string{true: "lo", false: "hi"}[b.Op == "ge"], "scan+bounds+response", table, e,
 								fmt.Sprintf("row at %d is inside the window [%d, %d]; its index row is stored under day %d (writer rule %s, zone %s) and is rejected by %s", e.TsNs, f, t, day, info.WRule, wloc, b.Text)))
-						case b.Col == "type" && !containsI(b.Set, int64(e.Type)):
+						case b.Col == "type" && !containsI(b.Set, int64(e.Type)) && (hasDate || interior):
 							fs = append(fs, mk("miss", "type-filter", "ty", "scan+bounds+response", table, e, fmt.Sprintf("row of type %d rejected by %s", e.Type, b.Text)))
+						case interior && b.Col == "ts" && ((b.Op == "ge" && sts < b.Num) || (b.Op == "gt" && sts <= b.Num)):
+							fs = append(fs, mk("miss", "ts-bound", "lo", "scan+bounds+response", table, e,
+								fmt.Sprintf("row at %d (stored timestamp %d) is strictly inside the window [%d, %d] and is rejected by %s: the bound lies %d ns after the start of the window", e.TsNs, sts, f, t, b.Text, b.Num-f)))
+						case interior && b.Col == "ts" && ((b.Op == "le" && sts > b.Num) || (b.Op == "lt" && sts >= b.Num)):
+							fs = append(fs, mk("miss", "ts-bound", "hi", "scan+bounds+response", table, e,
+								fmt.Sprintf("row at %d (stored timestamp %d) is strictly inside the window [%d, %d] and is rejected by %s: the bound lies %d ns before the end of the window", e.TsNs, sts, f, t, b.Text, t-b.Num)))
 						}
 					}
 				}
